@@ -34,7 +34,7 @@ RULE = ("each run is a history of 1-12 operations drawn from get (with/without q
         "compared with an abstract pin map after every step. distinct = distinct (operation "
         "kinds, outcomes) vectors; non-trivial = at least one certificate change, unreadable "
         "certificate, redirect or store mutation was exercised")
-PROBES = ["cert_changed_detected", "unreadable_cert_presented", "redirect_hop_checked",
+PROBES = ["ca_validation_on_as_well", "cert_changed_detected", "unreadable_cert_presented", "redirect_hop_checked",
           "first_use_pinned", "pinned_match", "import_applied", "revoke_then_refetch", "tofu_off",
           "upload_checked", "ec_cert", "first_use_on_failing_endpoint", "overlapping_first_use", "near_miss_pin_imported", "mixed_case_host_spelling", "server_speaks_first_tls12", "failed_import_in_history",
           "overlapping_ops_different_endpoints", "sql_fault_during_operation",
@@ -61,10 +61,17 @@ def run_one(ch):
     w.use_ec = ch.chance("ec", 0.15)
     w.cut = ch.choose("cut", 2)
     pool = CERTS + (fx.EC_CERTS if w.use_ec else [])
+    cw = CW + [2] * (len(pool) - len(CW))
+    good = fx.SERVER_CERTS
+    # a share of the runs: CA validation switched on as well (verify_ssl=True) against
+    # certificates that all pass it - a changed one is still a changed one
+    ca_mode = tofu_on and not w.use_ec and ch.chance("ca_verified", 0.1)
+    if ca_mode:
+        pool, cw, good = fx.CA_CERTS, [1] * len(fx.CA_CERTS), fx.CA_CERTS
     certs = {}
     for h in HOSTS:
         for p in PORTS:
-            certs[(h, p)] = pool[ch.choose("cert0", len(pool), CW + [2] * (len(pool) - len(CW)))]
+            certs[(h, p)] = pool[ch.choose("cert0", len(pool), cw)]
     w.setup_servers(certs)
     nops = 1 + ch.choose("nops", 12)
     model = {}
@@ -97,7 +104,7 @@ def run_one(ch):
             model.update(real)
 
     async def main():
-        client = GeminiClient(timeout=20.0, trust_on_first_use=tofu_on,
+        client = GeminiClient(timeout=20.0, trust_on_first_use=tofu_on, verify_ssl=ca_mode,
                               tofu_db_path=pathlib.Path(w.db_path))
         db = client.tofu_db if tofu_on else TOFUDatabase(pathlib.Path(w.db_path))
         for i in range(nops):
@@ -174,8 +181,20 @@ def run_one(ch):
                                     "storage fault during the operation: a certificate that fails "
                                     "verification was accepted and a response returned",
                                     step=desc, history=st["hist"][-8:])
+                    real_now = read_table(w.db_path)
+                    if got[0] == "resp" and expect[0] == "resp":
+                        # the call succeeded although the store hiccuped: then every hop it
+                        # trusted on first use IS pinned (a success without a pin would let the
+                        # next, different certificate in as "first use")
+                        lost = {k: v for k, v in pend.items() if real_now.get(k) != v}
+                        if lost:
+                            res.violate("C03/response-without-pin/" + kind,
+                                        "storage fault during the operation: a response was "
+                                        "returned but the certificate presented on first use was "
+                                        "not pinned", step=desc, history=st["hist"][-8:],
+                                        not_pinned={f"{k[0]}:{k[1]}": v for k, v in lost.items()})
                     model.clear()
-                    model.update(read_table(w.db_path))
+                    model.update(real_now)
                     continue
                 # pins written on the way are durable even if a later hop fails
                 if expect[0] in ("resp", "redirect-limit", "fail"):
@@ -229,7 +248,7 @@ def run_one(ch):
                         res.violate("C03/wrong-response/" + kind, "unexpected success", **ctx)
             elif op == 3:
                 key = endpoint("tr")
-                c = ch.pick("trcert", fx.SERVER_CERTS)
+                c = ch.pick("trcert", good)
                 st["hist"].append(f"trust {key[0]}:{key[1]} {c}")
                 db.trust(key[0], key[1], load_cert(c))
                 model[key] = fx.fp(c)
@@ -263,7 +282,7 @@ def run_one(ch):
                 ents = {}
                 for _ in range(n):
                     k = endpoint("imp")
-                    v = fx.fp(ch.pick("impcert", fx.SERVER_CERTS))
+                    v = fx.fp(ch.pick("impcert", good))
                     # near-miss pins: equal to a real fingerprint except for one late digit
                     nm = ch.choose("nearmiss", 4, [5, 1, 1, 1])
                     if nm:
@@ -308,7 +327,7 @@ def run_one(ch):
                 st["mutation"] += 1
             elif op == 8:
                 key = endpoint("sw")
-                c = pool[ch.choose("swcert", len(pool), CW + [2] * (len(pool) - len(CW)))]
+                c = pool[ch.choose("swcert", len(pool), cw)]
                 cur = w.servers[key].cert
                 if cur in fx.CLONE_CERTS and ch.chance("toclone", 0.6):
                     # an impostor that copies issuer, subject and serial number
@@ -345,7 +364,7 @@ def run_one(ch):
                 if any(w.fail_mode.get(k) or w.speak_first.get(k) for k in (P, via)):
                     continue
                 A = w.servers[P].cert
-                B = pool[ch.choose("rvcert", len(pool), CW + [2] * (len(pool) - len(CW)))]
+                B = pool[ch.choose("rvcert", len(pool), cw)]
                 if ch.chance("rvsame", 0.25):
                     B = A
                 w.servers[P].cert_queue = [A]
@@ -464,8 +483,8 @@ def run_one(ch):
                 key = endpoint("cc")
                 if w.redirect.get(key) is not None or w.fail_mode.get(key):
                     continue
-                c1 = ch.pick("cc1", fx.SERVER_CERTS)
-                c2 = ch.pick("cc2", fx.SERVER_CERTS)
+                c1 = ch.pick("cc1", good)
+                c2 = ch.pick("cc2", good)
                 w.servers[key].cert_queue = [c1, c2]
                 st["hist"].append(f"concurrent 2x get {url_of(key)} presenting {c1},{c2}")
                 st["concurrent"] += 1
@@ -504,7 +523,19 @@ def run_one(ch):
                 continue
             check_table(st["hist"][-1])
 
-    w.run(main)
+    import os
+    old_ca = os.environ.get("SSL_CERT_FILE")
+    if ca_mode:
+        os.environ["SSL_CERT_FILE"] = fx.crt(fx.CA_FILE_NAME)
+        res.stats["ca_validation_on_as_well"] += 1
+    try:
+        w.run(main)
+    finally:
+        if ca_mode:
+            if old_ca is None:
+                os.environ.pop("SSL_CERT_FILE", None)
+            else:
+                os.environ["SSL_CERT_FILE"] = old_ca
 
     st_map = {"cert_changed_detected": "changed", "unreadable_cert_presented": "unreadable",
               "redirect_hop_checked": "redir", "first_use_pinned": "first", "pinned_match": "match",
